@@ -279,10 +279,10 @@ Inductive eval : nat -> prog -> list event -> rres -> Prop :=
 | EvCall : forall d p t r, eval d p t r -> eval d (PCall p) t r
 | EvTryNormal : forall d b fs h t,            (* nothing reaches this block: the handler stays out *)
     eval (S d) b t RNormal -> eval d (PTry b fs h) t RNormal
-| EvTryHandled : forall d b fs h t1 k m t2 r, (* the body let k escape and the filter admits it *)
+| EvTryHandled : forall d b fs h t1 k m t2 r, (* the body let k escape and the filter accepts it *)
     eval (S d) b t1 (RRaised k m) -> (fs = [] \/ In k fs) ->
     eval d h t2 r -> eval d (PTry b fs h) (t1 ++ EHandler k m d :: t2) r
-| EvTryPassed : forall d b fs h t1 k m,       (* the filter does not admit k: outwards, untouched *)
+| EvTryPassed : forall d b fs h t1 k m,       (* the filter does not accept k: outwards, untouched *)
     eval (S d) b t1 (RRaised k m) -> fs <> [] -> ~ In k fs ->
     eval d (PTry b fs h) t1 (RRaised k m).
 
